@@ -190,13 +190,37 @@ func fetchStructComments(rootPackage *packages.Package, name *types.Named) (out 
 	}
 	name = scope.Type().(*types.Named)
 
+	// look for the documentation of the type specification; in a grouped
+	// declaration `type ( ... )`, each specification has its own documentation,
+	// otherwise it is attached to the declaration
 	pos := name.Obj().Pos()
-	node := nodeAt(pa, pos-1) // move up by one char to get the line right before the struct
-	decl, ok := node.(*ast.GenDecl)
-	if !ok || decl.Doc == nil {
+	declFile := pa.Fset.File(pos)
+	var doc *ast.CommentGroup
+	for _, file := range pa.Syntax {
+		if pa.Fset.File(file.Pos()) != declFile {
+			continue
+		}
+		for _, decl := range file.Decls {
+			genDecl, ok := decl.(*ast.GenDecl)
+			if !ok {
+				continue
+			}
+			for _, spec := range genDecl.Specs {
+				typeSpec, ok := spec.(*ast.TypeSpec)
+				if !ok || typeSpec.Name.Pos() != pos {
+					continue
+				}
+				doc = typeSpec.Doc
+				if doc == nil {
+					doc = genDecl.Doc
+				}
+			}
+		}
+	}
+	if doc == nil {
 		return nil
 	}
-	for _, line := range decl.Doc.List {
+	for _, line := range doc.List {
 		if kind, content := isSpecialComment(line.Text); kind != 0 {
 			out = append(out, SpecialComment{Kind: kind, Content: content})
 		}
